@@ -1370,9 +1370,15 @@ impl Server {
                 _ => break,
             }
             self.blocking_manager.notify_key_ready(db, key);
-            if let Err(e) = self.process_wakeups() {
-                eprintln!("Error processing wake-ups: {}", e);
-                break;
+            // Carry out EVERY queued request before looking at the key again: when the head waiter turns out to be
+            // stale (killed, or gone since it was probed) wake_client queues a request for the next waiter, who has
+            // then left the registry - the test above would end the loop and leave that request queued, to be carried
+            // out by the drain after some later command (inside a later EXEC, or after an LPOP took the element)
+            while self.blocking_manager.has_pending_wakeups() {
+                if let Err(e) = self.process_wakeups() {
+                    eprintln!("Error processing wake-ups: {}", e);
+                    return;
+                }
             }
         }
     }
